@@ -831,6 +831,89 @@ pub fn check_neighbours(c: &NeighbourCase) -> CaseResult {
     Ok(rep)
 }
 
+// ------------------------------------------------------------------------------------ huge
+
+/// Lengths of several MiB (where an implementation may switch to another strategy: non-temporal stores, page-wise
+/// copies) at destinations of every alignment class modulo 16 - the exact checks above stop at 1 MiB.
+#[derive(Serialize, Deserialize, Clone, Debug)]
+pub struct HugeCase {
+    /// 0 memset, 1 memcpy, 2 memmove forward overlap (dest below src by `gap`), 3 memmove backward overlap
+    pub op: u8,
+    pub n: usize,
+    pub dmis: u8,
+    pub smis: u8,
+    pub gap: u16,
+}
+
+pub fn check_huge(c: &HugeCase) -> CaseResult {
+    let mut rep = CaseReport::new();
+    let n = c.n.min(9 << 20);
+    let (dm, sm) = ((c.dmis & 63) as usize, (c.smis & 63) as usize);
+    let name = ["memset", "memcpy", "memmove", "memmove"][c.op.min(3) as usize];
+    // one arena for both operands: [64 red][dest .. n][64 red] ... ; contents a function of the index
+    let total = 2 * n + 4096 + 2 * (c.gap as usize);
+    let mut arena: Vec<u8> = (0..total).map(|i| (i as u32).wrapping_mul(2654435761) as u8).collect();
+    let base = arena.as_mut_ptr() as usize;
+    let a0 = (64 - base % 64) % 64;
+    let (doff, soff) = match c.op {
+        0 => (a0 + 64 + dm, 0),
+        1 => (a0 + 64 + dm, a0 + 64 + n + 1024 + sm),
+        2 => (a0 + 64 + dm, a0 + 64 + dm + 1 + c.gap as usize),
+        _ => (a0 + 64 + dm + 1 + c.gap as usize, a0 + 64 + dm),
+    };
+    let mut model = arena.clone();
+    // reference on the model
+    match c.op {
+        0 => model[doff..doff + n].fill(0x5a),
+        _ => model.copy_within(soff..soff + n, doff),
+    }
+    let ret = unsafe {
+        let d = arena.as_mut_ptr().add(doff);
+        match c.op {
+            0 => memsyms::ts_memset(d, 0x5a, n),
+            1 => memsyms::ts_memcpy(d, arena.as_ptr().add(soff), n),
+            _ => memsyms::ts_memmove(d, arena.as_ptr().add(soff), n),
+        }
+    };
+    ensure!(ret as usize == arena.as_ptr() as usize + doff, format!("{name}|wrong-return|huge"), "{name}(n={n}) returned {:p}", ret);
+    if arena != model {
+        let at = arena.iter().zip(model.iter()).position(|(a, b)| a != b).unwrap();
+        let rel = at as i64 - doff as i64;
+        let shape = if rel < 0 { "before the destination" } else if rel as usize >= n { "behind the destination" } else { "inside the destination" };
+        fail!(format!("{name}|wrong-bytes|huge, {shape}"), "{name}(dest&15={:x}, n={n}{}): first difference from the byte-wise reference at destination offset {rel} (got {:#x}, expected {:#x})", (base + doff) & 15, if c.op >= 2 { format!(", overlap distance {}", c.gap as usize + 1) } else { String::new() }, arena[at], model[at]);
+    }
+    rep.nontrivial = true;
+    rep.class(name);
+    rep.class_if(n >= 4 << 20, "four-MiB-or-more");
+    rep.class_if((base + doff) % 16 != 0, "destination-not-16-byte-aligned");
+    Ok(rep)
+}
+
+fn huge(ctx: &Ctx) {
+    if let Some(c) = ctx.replay_case::<HugeCase>("huge") {
+        ctx.run_one("huge", &c, || check_huge(&c));
+        return;
+    }
+    if ctx.is_replay() {
+        return;
+    }
+    let mut k = 0u32;
+    for op in 0u8..4 {
+        for n in [(2usize << 20) + 3, (4 << 20) - 1, 4 << 20, (4 << 20) + 17, (8 << 20) + 1] {
+            for dmis in [0u8, 1, 7, 8, 9, 15] {
+                k += 1;
+                if k % ctx.nworkers != ctx.worker {
+                    continue;
+                }
+                let c = HugeCase { op, n, dmis, smis: dmis.wrapping_mul(5) & 15, gap: 4096 + dmis as u16 };
+                if !ctx.run_one("huge", &c, || check_huge(&c)) {
+                    return;
+                }
+            }
+        }
+    }
+}
+
 fn neighbours(ctx: &Ctx) {
     if let Some(c) = ctx.replay_case::<NeighbourCase>("neighbours") {
         ctx.run_one("neighbours", &c, || check_neighbours(&c));
@@ -887,5 +970,6 @@ pub fn run(ctx: &Ctx) {
     ctx.run_prop("set-rand", ctx.cases(400, 20_000), set_rand(), |c: &SetCase| check_set(&mut w.borrow_mut(), c));
     ctx.run_prop("cmp-rand", ctx.cases(400, 20_000), cmp_rand(), |c: &CmpCase| check_cmp(&mut w.borrow_mut(), c));
     neighbours(ctx);
+    huge(ctx);
     probe::run(ctx);
 }
